@@ -388,6 +388,7 @@ package engine
 //@   requires txn == 0 && nonNilPtr(rm) && sql.selWF(q)
 //@   modifies txn, storeState, ioFailed, all(storage.Row.Vals), all(storage.Field.Column), allelems(any), allelems(*storage.Row)
 //@   ensures[unlock; C13 C18] txn == 0
+//@   ensures[limit.bound; C05] err == nil && q.LimitOffsetClause.LimitActive && q.LimitOffsetClause.Limit >= 0 && len(q.TableExpression.FromClause) > 0 ==> len(result0) <= q.LimitOffsetClause.Limit
 
 //@ func EvaluateInsert(q sql.InsertStatement, rm RelationManager) (int, error)
 //@   props C01 C02 C03 C13 C14 C18
